@@ -11,6 +11,15 @@ pub trait ExAsRef<T: core::marker::PointeeSized>: core::marker::PointeeSized {  
     type ExternalTraitSpecificationFor: core::convert::AsRef<T>;
 }
 
+// std: `Vec<u8> != &[u8]` (AesReader::validate compares the stored and the derived password verifier with it).
+// The std impl is generic (`impl PartialEq<&[U]> for Vec<T, A> where T: PartialEq<U>`), so the assumed spec goes
+// through an uninterpreted element-wise equality that is axiomatised for bytes only.
+pub uninterp spec fn slice_eq_spec<T, U>(a: Seq<T>, b: Seq<U>) -> bool;
+pub broadcast axiom fn axiom_slice_eq_u8(a: Seq<u8>, b: Seq<u8>)
+    ensures #[trigger] slice_eq_spec::<u8, u8>(a, b) == (a == b);
+pub assume_specification<'a, T: PartialEq<U>, U, A: core::alloc::Allocator> [ <Vec<T, A> as PartialEq<&'a [U]>>::ne ] (a: &Vec<T, A>, b: &&[U]) -> (r: bool)
+    ensures r == !slice_eq_spec::<T, U>(a@, b@);
+
 // ---- AES block function and the WinZip CTR key stream built from it -------
 // aes_enc(key, block): the AES forward cipher on one 16-byte block (assumed: crate `aes`)
 pub uninterp spec fn aes_enc(key: Seq<u8>, block: Seq<u8>) -> Seq<u8>;
@@ -160,7 +169,8 @@ pub mod pbkdf2 {
     // fills `res` completely with the derived key of that length
     #[verifier::external_body]
     pub fn pbkdf2<PRF>(password: &[u8], salt: &[u8], rounds: u32, res: &mut [u8])
-        ensures final(res)@ == pbkdf2_hmac_sha1(password@, salt@, rounds, old(res)@.len() as int)
+        ensures final(res)@.len() == old(res)@.len(),
+            final(res)@ == pbkdf2_hmac_sha1(password@, salt@, rounds, old(res)@.len() as int)
     { unimplemented!() }
 }
 
